@@ -205,6 +205,8 @@ class Explorer:
                 for lab in (True, False):
                     if st.succ is None or st.succ == lab:
                         outs.append((lab, st.with_(succ=lab)))
+            elif self._flag_test(e, st) is not None:
+                outs.append((self._flag_test(e, st), st))
             elif isinstance(e, ast.Call):
                 hs = self._helper(e)
                 if hs is not None:
@@ -257,26 +259,54 @@ class Explorer:
                     elif isinstance(t, ast.Name) and st2.svar(t.id) != "<unknown>":
                         st2 = st2.with_(sv=frozenset((k, v) for k, v in st2.sv if k != t.id))
                     elif d == f"{self.istate}.is_success":
-                        st2 = st2.with_(succ=s.value.value if isinstance(s.value, ast.Constant) and
-                                        isinstance(s.value.value, bool) else None)
+                        st2 = st2.with_(succ=s.value.value if isinstance(s.value, ast.Constant) and isinstance(s.value.value, bool) else
+                                        st2.svar(s.value.id) if isinstance(s.value, ast.Name) and isinstance(st2.svar(s.value.id), bool) else None)
                     elif d == self.istate and isinstance(s.value, ast.Call) and \
                             (dotted(s.value.func) or "").endswith("InternalState"):
                         task, succ = self.defaults()
                         st2 = st2.with_(task=task, succ=succ)
             fan = [st2]
+            # flag = helper(..): the flag records the helper's verdict, outcome by outcome
+            flag = None
+            if n.kind == "stmt" and isinstance(s, (ast.Assign, ast.AnnAssign)) and getattr(s, "value", None) is not None:
+                t0 = s.targets[0] if isinstance(s, ast.Assign) and len(s.targets) == 1 else getattr(s, "target", None)
+                if isinstance(t0, ast.Name) and isinstance(s.value, ast.Call) and self._helper(s.value) is not None:
+                    flag = t0.id
             for e in node_exprs(n):
                 for c in [x for x in walk_no_nested(e) if isinstance(x, ast.Call)]:
                     hs = self._helper(c)
                     if hs is not None:
                         tq, outcomes, b = hs
-                        fan = [x.with_(task=x.task if _subst_param(task, b) == "<in>" else _subst_param(task, b),
-                                       succ=x.succ if succ == "<in>" else succ)
-                               for x in fan for ret, task, succ, hfacts in outcomes]
+                        new_fan = []
+                        for x in fan:
+                            for ret, task, succ, hfacts in outcomes:
+                                y = x.with_(task=x.task if _subst_param(task, b) == "<in>" else _subst_param(task, b),
+                                            succ=x.succ if succ == "<in>" else succ)
+                                if flag is not None and c is s.value:
+                                    fx = set(y.facts)
+                                    for hf in hfacts:
+                                        kind, pa, pb = hf.split("|")
+                                        if pa in b and pb in b:
+                                            fx.add(f"{kind}|{src(b[pa])}|{src(b[pb])}:{_first_mention(b[pa])}")
+                                    y = y.with_(facts=frozenset(fx))
+                                    if ret is not None:
+                                        y = y.set_svar(flag, bool(ret))
+                                new_fan.append(y)
+                        fan = new_fan
             outs = [("*", x) for x in fan]
         res = []
         for lab, x in outs:
             res.append((lab, x.kill(kills, self.pair_mentions)))
         return res
+
+    def _flag_test(self, e: ast.expr, st: St):
+        """the outcome of `flag` / `not flag` when the flag holds a recorded boolean"""
+        neg = False
+        while isinstance(e, ast.UnaryOp) and isinstance(e.op, ast.Not):
+            e, neg = e.operand, not neg
+        if isinstance(e, ast.Name) and isinstance(st.svar(e.id), bool):
+            return st.svar(e.id) != neg
+        return None
 
     def _helper(self, c: ast.Call):
         for tq in self.eng.cg.targets(self.f, c):
